@@ -49,7 +49,7 @@ MINUS = ["", "-", "−"]
 SUFFIXES = ["", " (ohm)", "/Ohm", "(Z)", " [a.u.]"]
 EXTRA = ["time/s", "bias", "err", "pt", "#", "gd", "notes"]
 INSTRUMENTS = ["mpt", "i2b", "P00", "dfr", "dta", "z"]
-REQUIRED_CLASSES = {t: ["layout:" + i for i in INSTRUMENTS] + ["polar", "decimal-comma", "sweeps:3", "points:1", "neg-marker", "cli-roundtrip", "extra-columns"] for t in ("quick", "thorough")}
+REQUIRED_CLASSES = {t: ["layout:" + i for i in INSTRUMENTS] + ["polar", "decimal-comma", "sweeps:3", "points:1", "neg-marker", "cli-roundtrip", "cli-output-to-files", "extra-columns"] for t in ("quick", "thorough")}
 
 
 # ---------------------------------------------------------------------------- strategies
@@ -109,13 +109,13 @@ def table_case(draw):
 @st.composite
 def instrument_case(draw):
     layout = draw(st.sampled_from(INSTRUMENTS))
-    sweeps = draw(st_sweeps(max_sweeps=3 if layout == "mpt" else 1))
+    sweeps = draw(st_sweeps(max_sweeps=3))  # every instrument layout may hold several consecutive sweeps
     return {"layout": layout, "sweeps": sweeps, "conv": {"order": draw(st.sampled_from(["desc", "asc"])), "decimal": draw(st.sampled_from([".", ","])) if layout == "dta" else ".", "fmt": draw(st.sampled_from(["repr", "17e"]))}}
 
 
 @st.composite
 def cli_case(draw):
-    return {"layout": "cli", "sweeps": draw(st_sweeps(max_sweeps=1)), "conv": {"order": draw(st.sampled_from(["desc", "asc"])), "fmt": "repr", "sep_out": draw(st.sampled_from([",", "\t"]))}}
+    return {"layout": "cli", "sweeps": draw(st_sweeps(max_sweeps=3)), "conv": {"order": draw(st.sampled_from(["desc", "asc"])), "fmt": "repr", "sep_out": draw(st.sampled_from([",", "\t"])), "to_files": draw(st.booleans())}}
 
 
 def enum_tables(ctx):
@@ -313,25 +313,50 @@ def body_cli(ctx, case, tmp, labels):
     write_table({"sweeps": case["sweeps"], "conv": conv}, src)
     parser = get_argument_parser()
     out = []
+    to_files = bool(case["conv"].get("to_files"))
+    outdir = os.path.join(tmp, "out")
+    argv = ["parse", src, "--output-format", "csv"] + (["--output-to", "--output-dir", outdir] if to_files else [])
     try:
-        args = config_module.parse_cli_args(parser, ["parse", src, "--output-format", "csv"])
+        args = config_module.parse_cli_args(parser, argv)
         parse_command(parser, args, print_func=lambda *a: out.append(" ".join(map(str, a))))
     except Exception as e:  # noqa: BLE001
         ctx.crash("cli-parse-runs", case, e)
         ctx.record(case, False, labels, "cli failed")
         return
-    printed = "\n".join(out).strip() + "\n"
-    if case["conv"]["sep_out"] == "\t":
-        printed = printed.replace(",", "\t")  # the same table as a tab-separated file (headers contain blanks)
-    dst = os.path.join(tmp, "printed.csv")
-    with open(dst, "w", encoding="utf-8") as fh:
-        fh.write(printed)
-    try:
-        again = parse_data(dst)
-    except Exception as e:  # noqa: BLE001
-        ctx.fail("cli-output-parses", case, f"{type(e).__name__}: {e}\n--- printed ---\n{printed[:400]}", kind=type(e).__name__)
-        ctx.record(case, False, labels, "printed table rejected")
+    # one table per sweep: written to one file each (--output-to) or printed as blocks separated by an empty line, each
+    # block preceded by a title line when there are several
+    if to_files:
+        labels.add("cli-output-to-files")
+        names = sorted(os.listdir(outdir)) if os.path.isdir(outdir) else []
+        tables = [open(os.path.join(outdir, n), encoding="utf-8").read() for n in names]
+    else:
+        tables = []
+        for block in "\n".join(out).strip().split("\n\n"):
+            lines = [ln for ln in block.split("\n") if ln.strip()]
+            if lines and not lines[0].startswith("f (Hz)"):
+                lines = lines[1:]
+            if lines:
+                tables.append("\n".join(lines) + "\n")
+    if not ctx.check(len(tables) == len(case["sweeps"]), "one-dataset-per-sweep", case, f"'parse' {'wrote' if to_files else 'printed'} {len(tables)} tables for {len(case['sweeps'])} sweeps (argv {argv[2:]})"):
+        ctx.record(case, True, sorted(labels))
         return
+    again = []
+    for k, printed in enumerate(tables):
+        if case["conv"]["sep_out"] == "\t":
+            printed = printed.replace(",", "\t")  # the same table as a tab-separated file (headers contain blanks)
+        dst = os.path.join(tmp, f"printed-{k}.csv")
+        with open(dst, "w", encoding="utf-8") as fh:
+            fh.write(printed)
+        try:
+            got = parse_data(dst)
+        except Exception as e:  # noqa: BLE001
+            ctx.fail("cli-output-parses", case, f"{type(e).__name__}: {e}\n--- printed ---\n{printed[:400]}", kind=type(e).__name__)
+            ctx.record(case, False, labels, "printed table rejected")
+            return
+        if not ctx.check(len(got) == 1, "one-dataset-per-sweep", case, f"table {k} printed by 'parse' holds {len(got)} data sets"):
+            ctx.record(case, True, sorted(labels))
+            return
+        again.extend(got)
     compare(ctx, case, again, 1e-12, "table printed by 'parse --output-format csv'")
     labels.add("cli-roundtrip")
     ctx.record(case, sum(len(s) for s in case["sweeps"]) >= 2, sorted(labels), "single point")
